@@ -42,10 +42,11 @@
     let ghost bs = vf_blocks@;
 //@ loop 0
     invariant
-        f == *function, function.function_wf(), m == rd@,
+        f == *function, function.function_wf(), m == rd@, is_rd_solution(function, m),
         vf_it0.seq() == bs,
         f.control_flow_graph.graph.lists_vertices(bs, |k: usize| true),
         exits_done(f, m, bs, vf_it0.index@ as int, live@),
+        live_exact(f, m, live@),
 //@ before 0 `if { function`
     let ghost n0 = vf_it0.index@ as int;
     let ghost live_a = live@;
@@ -54,23 +55,34 @@
         assert(il::block_of(f, *block));
         lemma_no_successors(f, block.index);
     }
-//@ before 0 `let rpl = il::RefProgramLocation::new(function, rfl);`
+//@ after 0 `il::RefFunctionLocation::EmptyBlock(block) };`
     proof {
         assert(il::rfl_in(f, rfl));
-        lemma_block_end_unique(f, *block, il::loc_of(rfl));
+        assert(il::loc_of(rfl) == end_loc(*block));
+        lemma_block_end_unique(f, *block);
+        assert(is_exit_block(f, block.index));
     }
 //@ before 0 `for location in vf_it1`
     let ghost st = state@;
     proof {
         assert(m.contains_key(ploc(f, il::loc_of(rfl))) && m[ploc(f, il::loc_of(rfl))] == *state);
         lemma_len0(st);
+        lemma_exit_state_live(function, m, block.index, il::loc_of(rfl));
     }
 //@ loop 1
     invariant
         graph::seq_lists_set_ref(vf_it1.seq(), st),
+        all_live(f, m, st), live_exact(f, m, live@),
         live_a.subset_of(live@),
         listed_in(vf_it1.seq(), vf_it1.index@ as int, live@),
         vf_it1.index@ == vf_it1.seq().len() ==> defs_in(st, live@),
+//@ before 0 `live.insert(location.function_location().clone());`
+    let ghost live_c = live@;
+    proof {
+        graph::lemma_seq_lists_set_ref(vf_it1.seq(), st);
+        assert(st.contains(*location));
+        lemma_live_insert(f, m, live_c, *location);
+    }
 //@ after 0 `live.insert(location.function_location().clone());`
     proof { lemma_listed_done(st, vf_it1.seq(), vf_it1.index@ + 1, live@); }
 //@ after 0 `live.insert(location.function_location().clone()); }`
@@ -83,12 +95,13 @@
     let ghost bs2 = vf_blocks2@;
 //@ loop 2
     invariant
-        f == *function, function.function_wf(), m == rd@,
+        f == *function, function.function_wf(), m == rd@, is_rd_solution(function, m),
         vf_it2.seq() == bs2,
         f.control_flow_graph.graph.lists_vertices(bs, |k: usize| true),
         f.control_flow_graph.graph.lists_vertices(bs2, |k: usize| true),
         exits_done(f, m, bs, bs.len() as int, live@),
         observers_done(f, m, bs2, vf_it2.index@ as int, live@),
+        live_exact(f, m, live@),
 //@ before 0 `for instruction in vf_it3`
     let ghost n2 = vf_it2.index@ as int;
     proof {
@@ -104,6 +117,7 @@
         exits_done(f, m, bs, bs.len() as int, live@),
         observers_done(f, m, bs2, n2, live@),
         obs_block_done(f, m, *block, vf_it3.index@ as int, live@),
+        live_exact(f, m, live@),
 //@ before 0 `match *instruction.operation()`
     let ghost n3 = vf_it3.index@ as int;
     let ghost live_b = live@;
@@ -123,13 +137,23 @@
         assert(is_rd_in(f, m, l3, st4));
         lemma_rd_in_has(f, m, l3, st4);
         lemma_len0(st4);
+        assert(is_observer(f, l3));
+        lemma_observer_state_live(function, m, l3, st4);
     }
 //@ loop 4
     invariant
         graph::seq_lists_set_ref(vf_it4.seq(), st4),
+        all_live(f, m, st4), live_exact(f, m, live@),
         live_b.subset_of(live@),
         listed_in(vf_it4.seq(), vf_it4.index@ as int, live@),
         vf_it4.index@ == vf_it4.seq().len() ==> defs_in(st4, live@),
+//@ before 1 `live.insert(location.function_location().clone());`
+    let ghost live_d = live@;
+    proof {
+        graph::lemma_seq_lists_set_ref(vf_it4.seq(), st4);
+        assert(st4.contains(*location));
+        lemma_live_insert(f, m, live_d, *location);
+    }
 //@ after 1 `live.insert(location.function_location().clone());`
     proof { lemma_listed_done(st4, vf_it4.seq(), vf_it4.index@ + 1, live@); }
 //@ after 1 `live.insert(location.function_location().clone()); }`
@@ -217,11 +241,16 @@
         assert(g0.control_flow_graph.graph.vertices@.dom().contains(block_index));
         lemma_nopped_has_instruction(f, g0, kpre(ks, n6), block_index, instruction_index);
     }
-//@ after 0 `.operation_mut() = il::Operation::nop();`
+//@ before 0 `} Ok(dce_function)`
     proof {
         let nb = dce_function.control_flow_graph.graph.vertices@[block_index];
-        lemma_replaced_at(gb0, nb, instruction_index);
-        let p = choose|p: int| il::block_op_replaced(gb0, nb, p, il::Operation::Nop { placeholder: None }) && gb0.instructions@[p].index == instruction_index;
+        assert(dce_function.control_flow_graph.graph.vertices@ == g0.control_flow_graph.graph.vertices@.insert(block_index, nb));
+        assert(nb.index == gb0.index);
+        assert(nb.instructions@.len() == gb0.instructions@.len());
+        let p = choose|p: int| 0 <= p < gb0.instructions@.len() && (#[trigger] gb0.instructions@[p]).index == instruction_index && nb.instructions@ == gb0.instructions@.update(p, nb.instructions@[p]);
+        assert(nb.instructions@[p].operation == (il::Operation::Nop { placeholder: None }));
+        assert(nb.instructions@[p] == (il::Instruction { operation: il::Operation::Nop { placeholder: None }, ..gb0.instructions@[p] }));
+        assert(il::block_op_replaced(gb0, nb, p, il::Operation::Nop { placeholder: None }));
         lemma_nopped_step(f, g0, dce_function, kpre(ks, n6), block_index, nb, p);
         assert(block_nopped(f.control_flow_graph.graph.vertices@[block_index], gb0, kpre(ks, n6)));
         assert(f.control_flow_graph.graph.vertices@[block_index].instructions@[p].index == instruction_index);
